@@ -46,7 +46,7 @@ var c10stress = newChk("C10", "stress",
 			ad = &v6Adapter{}
 		}
 		conn := netsim.New(4096)
-		if err := ad.start(conn, 25*time.Millisecond, 2, false); err != nil {
+		if err := ad.start(conn, 25*time.Millisecond, 2, 0); err != nil {
 			return obs.Failf("C10/harness", "client starts", "%v", err)
 		}
 		want := wantTypes(c.V6)[0]
